@@ -350,7 +350,8 @@ func verifH_C17_parameter() {
 			case "ssv":
 				wantStyle = "spaceDelimited"
 			}
-			verifKnown("C17-collectionFormat-dropped", true)
+			// (multi on a query parameter happens to be the default the parameter gets anyway)
+			verifKnown("C17-collectionFormat-dropped", !(p.CollectionFormat == "multi" && in == "query"))
 			verifAssert(smErr == nil && in == "query" && sm.Style == wantStyle && sm.Explode == wantExplode, "C17 parameter: collectionFormat becomes the corresponding style and explode")
 			verifKnown("C17-collectionFormat-dropped", false)
 		}
